@@ -43,7 +43,16 @@ func VerifC04Captured() {
 	scratch := 0
 	var scr []int // operands per depth
 	for step := 0; step < k; step++ {
-		switch vrt.Choice("op", 6) {
+		switch vrt.Choice("op", 7) {
+		case 6: // a runtime error abandons every active call (Reset); later calls start afresh
+			vrt.Assume(len(widths) > 0)
+			m.Reset()
+			for _, c := range live {
+				if c != nil {
+					c.depth = 0
+				}
+			}
+			live, widths, scr, scratch = nil, nil, nil, 0
 		case 0: // call
 			a := vrt.Choice("args", 2)
 			vrt.Assume(a <= scratch)
@@ -61,6 +70,13 @@ func VerifC04Captured() {
 			f := m.TopRef()
 			if live[d-1] == nil {
 				c := &capRef{f: f, depth: d, want: make([]int, widths[d-1]), known: make([]bool, widths[d-1])}
+				for i := 0; i < widths[d-1]; i++ {
+					if c18Slot(0, i, widths[d-1]) {
+						v := vrt.Int("w")
+						m.Set(i, value.NewInt(v))
+						c.want[i], c.known[i] = v, true
+					}
+				}
 				live[d-1] = c
 				refs = append(refs, c)
 			} else {
@@ -76,12 +92,19 @@ func VerifC04Captured() {
 			if c := live[len(live)-1]; c != nil {
 				c.want[i], c.known[i] = v, true
 			}
-		case 3: // push operands (may reallocate the stack)
+		case 3: // push operands (may reallocate the stack), then write a local of the active call
 			n := c18Size("operands")
 			for i := 0; i < n; i++ {
 				m.Push(value.NewInt(vrt.Int("o")))
 			}
 			scratch += n
+			if len(widths) > 0 && widths[len(widths)-1] > 0 {
+				v := vrt.Int("v")
+				m.Set(0, value.NewInt(v))
+				if c := live[len(live)-1]; c != nil {
+					c.want[0], c.known[0] = v, true
+				}
+			}
 		case 4: // return
 			vrt.Assume(len(widths) > 0)
 			m.PopFrame()
@@ -186,10 +209,25 @@ func VerifC04CapturedContexts() {
 	}
 	c2.PushFrame(0, 2)
 	c2.Push(value.NewInt(vrt.Int("ip")))
+	// a call in the recycled context creates a function value; its frame follows the growth of
+	// the recycled stack and shows later writes
+	r2 := capture(c2, 2)
+	for n := c18Size("fork2-operands2"); n > 0; n-- {
+		c2.Push(value.NewInt(vrt.Int("o")))
+	}
+	v := vrt.Int("q")
+	c2.Set(1, value.NewInt(v))
+	r2.want[1] = v
+	for _, r := range refs {
+		r.check("after-recycled-fork-used")
+	}
+	c2.PopFrame()
+	c2.PushFrame(0, 2)
+	c2.Push(value.NewInt(vrt.Int("ip")))
 	c2.Set(0, value.NewInt(vrt.Int("q")))
 	c2.Set(1, value.NewInt(vrt.Int("q")))
 	for _, r := range refs {
-		r.check("after-recycled-fork-used")
+		r.check("after-return-in-recycled-fork")
 	}
 	vrt.Cover("done")
 }
